@@ -29,6 +29,7 @@ FRAGMENT_CODES = {'VFS_LOOKUP', 'TRACE_STRING_GLOBAL', 'TRACE_STRING_THREADNAME'
 
 class InvariantLog:
     evaluations = 0
+    not_applicable = 0
     failures = []
 
 
@@ -41,6 +42,9 @@ def windows_well_formed(self):
         if not isinstance(table, dict):
             continue
         for tid, per in table.items():
+            if not isinstance(per, dict) or not all(isinstance(w, list) for w in per.values()):
+                InvariantLog.not_applicable += 1     # another representation of the windows: nothing to assert here
+                continue
             for code, window in per.items():
                 bad = None
                 if not window:
